@@ -421,6 +421,23 @@ fn ops_nc() -> TyOps {
     }
 }
 
+/// a type that is only ever stored with the non-debugable flavour (size_of == byte_len == 4)
+fn ops_nd<T: Tracked + Clone>(name: &'static str) -> TyOps {
+    TyOps {
+        name,
+        set: |m, v| m.set_content_non_debugable(T::mk(v)),
+        cast: |m| m.try_cast::<T>().map(|(t, _h)| t.val()),
+        content: |m| m.try_content::<T>().map(Tracked::val),
+        can: |m| m.can_cast::<T>(),
+        exp_len: T::exp_len,
+        leaves: T::leaves,
+        readback: |v| v,
+        clonable: true,
+    }
+}
+leaf!(ND1, u32, |v| v, |i| Some(*i), |_| 4);
+leaf!(ND2, i32, |v| v as i32, |i| Some(*i as u32), |_| 4);
+
 /// two distinct types that share one name (and therefore one `std::any::type_name`)
 fn twin_types() -> (TyOps, TyOps) {
     let a = {
@@ -472,6 +489,8 @@ fn types() -> Vec<TyOps> {
         ops_clonable::<VV>("VV(Vec<Vec<u16>>)", |v| u32::from(v as u16)),
         twin_types().0,
         twin_types().1,
+        ops_nd::<ND1>("ND1(u32) stored non-debugable"),
+        ops_nd::<ND2>("ND2(i32) stored non-debugable"),
     ]
 }
 
@@ -700,7 +719,7 @@ impl Property for C16 {
     }
     fn rule(&self, tier: Tier) -> String {
         format!(
-            "every history of exactly {} operations over 20 body types (82 ops), of exactly {} operations over 9 core types (38 ops) and of exactly {} operations over 13 container / std types and two distinct types with one and the same type name (62 ops: a VecDeque with a wrapped ring buffer, LinkedList, BTreeMap, HashMap, BTreeSet, HashSet, IpAddr and SocketAddr in both variants, Duration, SimTime, a 5-tuple, (bool,char,u128,&str), Vec<Vec<u16>>) (every shorter history is a checked prefix), on a stack of messages, ops = {{set_content(T), try_cast<T>, try_content<T>, can_cast<T> per type, try_clone, drop}}; \
+            "every history of exactly {} operations over 20 body types (82 ops), of exactly {} operations over 9 core types (38 ops) and of exactly {} operations over 13 container / std types and two distinct types with one and the same type name and two types stored with the non-debugable flavour (70 ops: a VecDeque with a wrapped ring buffer, LinkedList, BTreeMap, HashMap, BTreeSet, HashSet, IpAddr and SocketAddr in both variants, Duration, SimTime, a 5-tuple, (bool,char,u128,&str), Vec<Vec<u16>>) (every shorter history is a checked prefix), on a stack of messages, ops = {{set_content(T), try_cast<T>, try_content<T>, can_cast<T> per type, try_clone, drop}}; \
              types: u32 / i32 / f32 / [u8;4] / derived newtype (layout twins), String, Vec<u8>, Option<u32>, (), derived struct, derived enum (unit/tuple/named variants), nested derived struct, a non-Clone type, Result, Box, tuple, derived tuple struct with 3 fields, derived generic struct, derived enum with 4 variants, an array of options with unequal element lengths; \
              oracle: typed-value model (cast/borrow succeeds iff same type and yields the stored value; failure returns the message intact), live-object counter after every op and after dropping everything, \
              length() == 64 + independently computed byte length; plus one 2-module simulation per type checking arrival time == length*8/bitrate; \
